@@ -48,10 +48,11 @@ func runC12(c *Ctx) {
 	if !c.extractorProblems(t, "lexemes", "parser", "printer") {
 		g := c.grammar(t)
 		c.Tables["A2_parse_paths"] = g.dump(t)
-		c.rule("R12.1", "every fixed terminal of a node's printed form is tested on input by the parse path that builds the node (no unchecked advance in terminal position); the statement-list parser of the program stops only at end of input")
+		c.rule("R12.1", "every fixed terminal of a node's printed form is tested on input by the parse path that builds the node (no unchecked advance in terminal position); the statement-list parser of the program stops only at end of input, that of a block only at '}' or (the open block) at the end of input")
 		c.floor(25)
 		ruleTokenOrder(c, t, g, "checked")
 		ruleProgramReachesEOF(c, t, g)
+		ruleBlockReachesItsEnd(c, t, g)
 	}
 	if lexerRulesArmed {
 		c.rule("R12.5", "unterminated string/backtick literals are observable: the end-of-input exit and the closing-delimiter exit of the scanners are distinguishable downstream")
@@ -550,6 +551,62 @@ func ruleProgramReachesEOF(c *Ctx, t *tables, g *grammarModel) {
 			c.bad(key, pos, "a success path returns the program while the current token is not known to be end of input (%s): the rest of the input is dropped without an error", bad)
 		} else {
 			c.ok(key, pos, "all %d success paths end at a tested end-of-input token", len(gm.paths))
+		}
+	}
+}
+
+// ruleBlockReachesItsEnd: every success path of the method that builds ast.BlockStatement ends with the current token
+// tested to be '}' — or, for the block left open, tested to be the end of the input. A loop that stops on the LOOK-AHEAD
+// token being the end of input leaves the last statement unparsed (in tolerant mode silently: the open block is accepted
+// by design).
+func ruleBlockReachesItsEnd(c *Ctx, t *tables, g *grammarModel) {
+	eof, ok1 := t.tc.byName["EOF"]
+	rb, ok2 := t.tc.byName["RBRACE"]
+	if !ok1 || !ok2 {
+		c.unres("BlockStatement: ends at '}' or at the end of input", token.NoPos, "token constants not found")
+		return
+	}
+	for _, gm := range g.byNode["BlockStatement"] {
+		key := "BlockStatement built by " + gm.method.Name() + ": ends at '}' or at the end of input"
+		pos := c.declIdx[gm.method].Pos()
+		if len(gm.issues) > 0 || len(gm.paths) == 0 {
+			c.unres(key, pos, "parse method not understood by the path enumerator")
+			continue
+		}
+		bad := ""
+		for _, gp := range gm.paths {
+			last := gp.events[len(gp.events)-1]
+			okLast := last.kind == gTok && last.checked && len(last.types) > 0
+			for k := range last.types {
+				if k != eof && k != rb {
+					okLast = false
+				}
+			}
+			if !okLast {
+				bad = renderPath(t.tc, gp.events)
+				break
+			}
+		}
+		// the open block tolerant mode accepts: the list must have run to the end of the input itself
+		for _, gp := range gm.tolerantPaths {
+			if bad != "" || len(gp.events) == 0 {
+				break
+			}
+			last := gp.events[len(gp.events)-1]
+			okLast := last.kind == gTok && last.checked && len(last.types) > 0
+			for k := range last.types {
+				if k != eof && k != rb {
+					okLast = false
+				}
+			}
+			if !okLast {
+				bad = "tolerant mode: " + renderPath(t.tc, gp.events)
+			}
+		}
+		if bad != "" {
+			c.bad(key, pos, "a success path returns the block while the current token is not known to be '}' or the end of the input (%s): the statement list stops early and what follows is parsed as if it were outside the block, or dropped", bad)
+		} else {
+			c.ok(key, pos, "all %d success paths end at a tested '}' / end of input", len(gm.paths))
 		}
 	}
 }
